@@ -21,6 +21,7 @@ type Case struct {
 	Type   *sg.TypeSpec `json:"type"`
 	Values []string     `json:"values"`
 	Path   []string     `json:"path"`
+	Hops   int          `json:"hops,omitempty"` // the leaf reaches the type through this many typedefs (0 = written on the leaf)
 }
 
 type gen struct{ t *rapid.T }
@@ -44,12 +45,22 @@ func fmtScaled(v *big.Int, fd int) string {
 }
 
 // identity hierarchy: m0 { b0; d1 <- b0; d2 <- d1; other }  m1 { e1 <- m0:d1; e2 <- e1; u1 }
-func modules(t *sg.TypeSpec) []*sg.Mod {
+func modules(t *sg.TypeSpec, hops int) []*sg.Mod {
 	m0 := &sg.Mod{Name: "m0", Prefix: "m0", Identities: []*sg.Identity{{Name: "b0"}, {Name: "d1", Base: "b0"}, {Name: "d2", Base: "d1"}, {Name: "other"}},
 		Nodes: []*sg.Node{{Kind: "container", Name: "m0-top", Kids: []*sg.Node{{Kind: "leaf", Name: "x", Type: &sg.TypeSpec{Name: "string"}}}}}}
 	m1 := &sg.Mod{Name: "m1", Prefix: "m1", Imports: []sg.Import{{Mod: "m0", Prefix: "m0"}},
 		Identities: []*sg.Identity{{Name: "e1", Base: "m0:d1"}, {Name: "e2", Base: "e1"}, {Name: "u1"}, {Name: "lb"}, {Name: "l1", Base: "lb"}},
 		Nodes:      []*sg.Node{{Kind: "container", Name: "m1-top", Kids: []*sg.Node{{Kind: "leaf", Name: "v", Type: t}}}}}
+	// the same type reached by reference: value space, messages and app-tags must be those of the definition
+	for h := 0; h < hops; h++ {
+		name := fmt.Sprintf("td%d", h)
+		inner := t
+		if h > 0 {
+			inner = &sg.TypeSpec{Name: fmt.Sprintf("td%d", h-1)}
+		}
+		m1.Typedefs = append(m1.Typedefs, &sg.Typedef{Name: name, Type: inner})
+		m1.Nodes[0].Kids[0].Type = &sg.TypeSpec{Name: name}
+	}
 	return []*sg.Mod{m0, m1}
 }
 
@@ -67,7 +78,7 @@ func identNames(base string) []string {
 	return nil
 }
 
-var patternPool = []string{"[a-z]+", "a", "a|b", "ab|cd", "(ab)*", "[0-9]{2,3}", ".*x", "x.*", "[^ ]*", "a.c", "é+"}
+var patternPool = []string{"(ab+)|(cd+)", "([0-9]+)|(none)", "[a-z]+", "a", "a|b", "ab|cd", "(ab)*", "[0-9]{2,3}", ".*x", "x.*", "[^ ]*", "a.c", "é+"}
 
 func (g *gen) rangeOver(lo, hi *big.Int, fd int) string {
 	// 1-3 ascending parts with small gaps, anchored near the type bounds or near zero
@@ -282,6 +293,7 @@ func genCase(t *rapid.T) Case {
 	ty := g.typ(2)
 	c := Case{Type: ty, Values: candidates(g, ty)}
 	c.Path = []string{"m1-top", []string{"v", "v w", "v/w", "v%", "é"}[g.pick(5, "pathelem")]}
+	c.Hops = []int{0, 0, 1, 2}[g.pick(4, "hops")]
 	return c
 }
 
@@ -335,7 +347,7 @@ func isNumeric(s string) bool {
 
 func checkCase(c Case) fw.Outcome {
 	out := fw.Outcome{Labels: []string{"type:" + c.Type.Name}}
-	mods := modules(c.Type)
+	mods := modules(c.Type, c.Hops)
 	res := sgc.Compile(mods, sgc.Opts{Features: sgc.AllFeatures{}})
 	src := mods[1].Text()
 	out.Key = src + strings.Join(c.Values, "\x00")
